@@ -515,6 +515,8 @@ pub struct Hist {
     pub forced: bool,      // a forced rotation happened
     pub forced_at: Vec<usize>, // … after that many accepted records (op ROT)
     pub forced_times: Vec<(usize, u64)>, // … and at which clock reading
+    pub unrotatable: bool, // NOTE unrotatable: due rotations cannot succeed (index space exhausted, name too long): only the stream is judged
+    pub bounds_always: bool, // no pre-existing files, no restarts: the cleanup limits hold after shutdown whether or not a rotation was observed (BGCLEAN 5)
     pub reopen_mark: Option<(usize, usize)>, // reopen_output() returned after that many records / rotations (cleared by the next external rename/remove, reset, restart)
     pub forced_unpositioned: bool, // … through RP/CROT (crash cases): position not recorded
     pub restarts: u64,
@@ -641,12 +643,12 @@ fn oracles(ctx: &mut Ctx, case_id: &str, li: usize, f: &Flw, h: &Hist, at_sync_p
         let kk = if direct && k == 0 { 1 } else { k };
         let compressible = f.spec.suffix.is_some();
         let _ = compressible;
-        if h.rotations > 0 && !h.faulty && (plain > kk || gz > m) {
+        if (h.rotations > 0 || (h.bounds_always && at_sync_point)) && !h.faulty && (plain > kk || gz > m) {
             ctx.report.fail(case_id, "cleanup-bounds", &format!(
                 "line {li}: {plain} rotated plain files and {gz} compressed files exist ({order:?}) but the limits are {kk} and {m}"));
         }
     }
-    if h.faulty || h.restarts > 0 || !at_sync_point || !f.moved_names.is_empty() || h.reset_seen {
+    if h.faulty || h.restarts > 0 || !at_sync_point || !f.moved_names.is_empty() || h.reset_seen || h.unrotatable {
         return;
     }
     let rot = match &f.cfg.rot { Some(r) => r, None => return };
@@ -994,6 +996,7 @@ fn execute_inner(ctx: &mut Ctx, lines: &[String]) -> Vec<String> {
             ["NOTE", "tz", z] => { if std::env::var("TZ").as_deref() == Ok(*z) { "ok".into() } else { "bad-op zone of the process differs".into() } }
             // the records of this case end with CR LF (`use_windows_line_ending`)
             ["NOTE", "crlf"] => { CRLF.store(true, std::sync::atomic::Ordering::SeqCst); "ok".into() }
+            ["NOTE", "unrotatable"] => { h.unrotatable = true; "ok".into() }
             ["NOTE", "nocheck-foreign"] => { f.foreign_content.clear(); nocheck_foreign = true; "ok".into() }
             ["NOTE", ..] => "ok".into(),
             ["SPEC", rest @ ..] if rest.len() == 5 => {
@@ -1282,6 +1285,16 @@ fn execute_inner(ctx: &mut Ctx, lines: &[String]) -> Vec<String> {
                         while BG_DONE.load(SeqCst) < BG_SENT.load(SeqCst) && t0.elapsed() < patience { std::thread::sleep(std::time::Duration::from_micros(50)); }
                         BG_WINDOW.store(false, SeqCst);
                     }
+                })));
+                "ok".into()
+            }
+            // a SLOW cleanup thread (every file operation of the thread takes a few milliseconds): when
+            // shutdown() is called there is work left, and shutdown() must wait for it
+            ["BGCLEAN", "5"] => {
+                f.bg_cleanup = true;
+                h.bounds_always = true;
+                flexi_logger::verif_hooks::set_point_handler(Some(Arc::new(|name| {
+                    if name == "cleanup.thread.act" { std::thread::sleep(std::time::Duration::from_millis(3)); }
                 })));
                 "ok".into()
             }
@@ -1615,6 +1628,12 @@ fn execute_inner(ctx: &mut Ctx, lines: &[String]) -> Vec<String> {
                 oracles(ctx, &case_id, li, &f, &h, !h.unflushed);
                 hex(&all)
             }
+            // the stream oracle alone (histories the model does not predict, `CASE robust`)
+            ["CHECKSTREAM"] => {
+                ctx.report.count("op.CHECKSTREAM");
+                oracles(ctx, &case_id, li, &f, &h, !h.unflushed);
+                "ok".into()
+            }
             ["PARTS"] => {
                 let v = f.reading_order().iter().map(|n| read_file(&dir.join(n)).len().to_string()).collect::<Vec<_>>();
                 if v.is_empty() { "-".into() } else { v.join(",") }
@@ -1696,7 +1715,8 @@ fn execute_inner(ctx: &mut Ctx, lines: &[String]) -> Vec<String> {
     let bg_any = bg_lockstep || bg_adversarial;
     let f_via_logger = f.via_logger;
     drop(f);
-    if bg_any { flexi_logger::verif_hooks::set_point_handler(None); }
+    let _ = bg_any;
+    flexi_logger::verif_hooks::set_point_handler(None);
     *BGREC.lock().unwrap_or_else(std::sync::PoisonError::into_inner) = None;
     flexi_logger::verif_hooks::set_virtual_now(None);
     flexi_logger::verif_hooks::set_fault_handler(None);
